@@ -168,3 +168,22 @@ def _raw_field(self, args, kwargs, fr, node):
     f = [f_ for f_ in ci.fields if f_.name == fname][0]
     x = x if isinstance(x, SV) else self.sv(x)
     return SV(self.ct.field(ci, fname, x.term), f.ty)
+
+
+def equiv_elimination(self, terms):
+    """ForAll a b rho. equiv(a, b) => ev(a, rho) == ev(b, rho)  (one direction of the definition, with triggers): lets
+    equivalences *derived* by lemma instances be used at the valuations in sight.  None when equiv is not in use."""
+    d = _EQUIV.get('decl')
+    if d is None:
+        return None
+    if 'elim' not in _EQUIV:
+        from .classtable import TNode, TAbs
+        from .contracts import SPECS
+        E = TNode('Expr').z3sort()
+        a, b = z3.Const('equiv!a', E), z3.Const('equiv!b', E)
+        rho = z3.Const('equiv!rho', TAbs('Env').z3sort())
+        f = self.declare_spec(SPECS['ev'])
+        body = z3.Implies(d(a, b), f(a, rho) == f(b, rho))
+        _EQUIV['elim'] = z3.ForAll([a, b, rho], body,
+                                   patterns=[z3.MultiPattern(d(a, b), f(a, rho)), z3.MultiPattern(d(a, b), f(b, rho))])
+    return _EQUIV['elim']
